@@ -688,3 +688,20 @@ KIT_MODES = (" KIT MODES (every rapid leg): besides its own run, every 8th case 
 for _p in PROPS.values():
     if any(l.get("kind") == "rapid" for l in _p["legs"]):
         _p["rule"] += KIT_MODES
+
+# Rounds 10 and 11 of seeded changes: additions to the generators and oracles (DESIGN.md section 7).
+_R10_11 = {
+    "C01": "ROUNDS 10-11: one case in 8 bulk-constructs the tree from 1..8 distinct keys given 3..40 times over and starts with a removal and/or a path-extending run; Add of present keys is one of the read-only call groups (it must return false and leave cursors and iterations alone).",
+    "C02": "ROUNDS 10-11: comb-shaped runs (combA/combD, long forms of 300..1700 keys for beta >= 800: new extreme two units out, then the key between, so every spine node has a single leaf as its other child); one case in 8 fills a tree with 300..1700 keys at ANY beta, clones it, makes the clone the active tree and extends its path; duplicate-heavy bulk construction as in C01.",
+    "C03": "ROUNDS 10-11: one case in 4 is a 'shrunk, not yet rebuilt' scenario (beta 0..500, a run of 8..39 keys, a quarter to a half of them removed, then three cursors held across read-only calls); the read-only calls include Add of every present key (small trees) or eight spread keys.",
+    "C04": "ROUNDS 10-11: the string keys/values include '%', '97%', '%d', '%%', '%[1]v %s', '%!v(MISSING)', a backslash and '{}' (String must print them verbatim).",
+    "C05": "ROUNDS 10-11: op setRm = Set(vs), then Peek(i) and Remove(i) at an offset > 0 as the very first calls after it (a queue that puts off reordering must still remove what Peek showed); one Sort input in 4 is a monotone run (steps 0..2, up to 1500 values, either direction) with up to three values out of place, positions biased to the ends and values to the run's extremes.",
+    "C06": "ROUNDS 10-11: op setRm as in C05 (Set, Peek(i), Remove(i) back to back) with position reports on.",
+    "C07": "ROUNDS 10-11: half of the 'edge' cases are a full buffer of 1024 / 2048 / 4096 / 8192 / 16384 (+-1) slots with the head at an absolute offset of 1..64 from the start or 1..32 from the end, followed by Add or Push.",
+    "C14": "ROUNDS 10-11: the hostile line alphabet also has lines that, behind their one-byte marker, are a separator or header of some format: '- ' (patch line '-- '), '+ ', '-- ', '++ ', '--', '> ', '< ', '! ', '--- ', '+++ ', '@@', '-@@ -1 +1 @@', '-- a/x', ...",
+    "C15": "ROUNDS 10-11: one list case in 4 first splits a Raw string twice in the same goroutine - a head followed by an open quotation or a dangling backslash in every state the scanner can end in - checks it against the reference tokenizer, and then runs the case proper (state left in pooled scanners must not reach it).",
+    "C16": "ROUNDS 10-11: about one random input in 6 is built from 2..9 segments, each one atom (blank, tab, newline, backslash-newline, backslash, quote, letter, escaped letter, '#', '$') repeated 1..65 times: long runs of one kind of byte right after every kind of construct.",
+    "C18": "ROUNDS 10-11: after every Add/AddAll/Remove/RemoveAll/Pop/Clear on a non-nil variable, a copy of the Set value taken before the call (another handle of the same map) must show the same members as the receiver; one case in 6 splices in Add(x), Clear, Add(7..129 items in one call) on one variable.",
+}
+for _pid, _txt in _R10_11.items():
+    PROPS[_pid]["rule"] = PROPS[_pid]["rule"] + " " + _txt
